@@ -63,6 +63,8 @@ def attr_ops():
     for k, a, good in ATTRS:
         ops.append(('unset', k, a))
         ops.append(('restore', k, a))
+        if a != 'table':
+            ops.append(('empty', k, a))     # an empty string is a value, not a missing attribute
     ops += [('delete', 't'), ('add', 't'), ('delete', 'e'), ('add', 'e')]
     return ops
 
@@ -75,7 +77,7 @@ class AttrModel:
     def apply(self, op):
         if op[0] == 'unset':
             self.missing.add((op[1], op[2]))
-        elif op[0] == 'restore':
+        elif op[0] in ('restore', 'empty'):
             self.missing.discard((op[1], op[2]))
         elif op[0] == 'delete':
             if not self.attached[op[1]]:
@@ -123,6 +125,8 @@ def attr_apply(U, op):
         good = {('t', 'name'): 't', ('c1', 'name'): 'c1', ('c1', 'type'): 'int', ('c2', 'name'): 'c2', ('c2', 'type'): U['e'],
                 ('e', 'name'): 'e', ('e', 'schema'): 'public', ('i1', 'name'): 'i1', ('ix', 'table'): U['t'], ('pkix', 'table'): U['t']}
         setattr(U[op[1]], op[2], good[(op[1], op[2])])
+    elif op[0] == 'empty':
+        setattr(U[op[1]], op[2], '')
     elif op[0] == 'delete':
         U['db'].delete(U[op[1]])
     elif op[0] == 'add':
